@@ -337,6 +337,9 @@ func genC08Case(t *rapid.T) *C08Case {
 			pi := rapid.IntRange(0, len(pool)-1).Draw(t, "type")
 			p := pool[pi]
 			s = &StructCase{}
+			if tagFn[pi] {
+				ev.Class("calls on a type whose tag names a rule only some calls define")
+			}
 			if tagFn[pi] && rapid.Bool().Draw(t, "bringTagFn") {
 				s.CallFns = []string{"cfn1"}
 			}
